@@ -5,5 +5,5 @@ for d in "$root"/*/; do
   k=$(basename "$d")
   echo "##### $pid change $k"
   /verif/tools/seeded_verify.sh "$d"
-  /verif/tools/seeded_run.sh "$d/patch.diff" "$pid" 2>&1 | grep -E "VIOLATION|KNOWN-FINDING|^\[$pid\]|SEEDED-RESULT|\"what\"|\"kind\"" | cut -c1-260 | head -9
+  /verif/tools/seeded_run.sh "$d/patch.diff" "$pid" 2>&1 | grep -E "VIOLATION|^\[$pid\]|SEEDED-RESULT|\"what\"|\"kind\"" | cut -c1-260 | awk '/SEEDED-RESULT/{print; next} n<8{n++; print}' 
 done
